@@ -47,8 +47,8 @@ SHORT = {
     'd': {C('opts_decompress', 'opt')}, 'z': {C('opts_decompress', 'opt')},
     'f': {S('G:force', 1)}, 'k': {S('G:keep', 1)}, 's': {S('G:small', 1)}, 'u': {S('G:ultra', 1)},
     'v': {S('G:verbose', 1)}, 'S': {S('G:print_cctrs', 1)}, 'q': set(),
-    'h': {('state', 'AS_USAGE'), ('cont', 0)}, 'L': {('state', 'AS_VERSION'), ('cont', 0)},
-    'V': {('state', 'AS_VERSION'), ('cont', 0)}, '\0': {('cont', 0)},
+    'h': {('state', 'AS_USAGE')}, 'L': {('state', 'AS_VERSION')},
+    'V': {('state', 'AS_VERSION')}, '\0': set(),
 }
 for d in '123456789':
     SHORT[d] = {S('G:bs100k', 'opt-48')}
@@ -73,6 +73,19 @@ class Extract:
             broken('opts_setup(): expected exactly one switch (short options)')
         self.sw = sw[0]
         self.opt_expr = strip_casts(self.P.expr(self.sw.ops[0]))
+        # the parser-state variable, whatever it is called: the local whose merges receive the constants of
+        # AS_STOP, AS_USAGE and AS_VERSION
+        want = {self.E[k] for k in ('AS_STOP', 'AS_USAGE', 'AS_VERSION') if k in self.E}
+        cands = {}
+        for i in f.insns():
+            if i.op == 'phi' and self.names.get(i.res):
+                for v, src in i.extra['incoming']:
+                    if v[0] == 'int':
+                        cands.setdefault(self.names[i.res], set()).add(v[1])
+        st = [n for n, vs in cands.items() if want and want <= vs]
+        if len(st) != 1:
+            broken('opts_setup(): cannot identify the parser-state variable (candidates %s)' % st)
+        self.state_var = st[0]
 
     def dominated(self, T):
         return {bn for bn in self.f.blocks if bn in self.dom and T in self.dom[bn]}
@@ -114,12 +127,9 @@ class Extract:
                 var = self.names.get(i.res)
                 for v, src in i.extra['incoming']:
                     if src in D and v[0] == 'int':
-                        if var == 'args_state':
+                        if var is not None and var == self.state_var:
                             out.add(('state', inv.get(v[1], v[1])))
-                        elif var == 'cont':
-                            out.add(('cont', v[1]))
-                        elif var is not None:
-                            out.add(('local', var, v[1]))
+                        # other locals (loop flags, scan pointers) are bookkeeping of the parser itself
         return out
 
 
@@ -347,8 +357,9 @@ def environment(ctx, prog, X):
                 return False
             if is_tok(x) and (cn is None or cn[2] in (('null',), ('const', 0))):
                 continue
-            if cn and cn[2][0] == 'const' and x[0] == 'phi' and X.names.get(x[1]) == 'ofs':
-                continue
+            if cn and cn[2][0] == 'const' and x[0] == 'phi' and cn[0] in ('ult', 'ule', 'ne') and \
+                    any(strip_casts(y) == ('const', 0) for y, _ in P.phi_inputs(x)):
+                continue        # the index of the loop over ev_name[]
             extra.append(render(e)[:80])
         ctx.ob('C22.env', 'no environment token is skipped: the append is guarded only by "variable set" and "another '
                'token exists"', f.loc(in_env[0]), not extra, 'additional conditions: %s' % extra)
@@ -366,7 +377,7 @@ def environment(ctx, prog, X):
     # (arg = *operands): load of param operands as the initial value of the loop variable
     okl = False
     for i in f.insns():
-        if i.op == 'phi' and X.names.get(i.res) == 'arg':
+        if i.op == 'phi' and i.ty and i.ty[0] == 'ptr':
             for x, _ in P.phi_inputs(('phi', i.res, i)):
                 x = strip_casts(x)
                 if x[0] == 'load' and render(x) == 'V(param:operands)':
